@@ -86,3 +86,31 @@ func H10j_Verify_ArbitraryStubAnswers() {
 	err := TdxQuote(quote, &Options{GetCollateral: coll, CheckRevocations: coll && vp.Choose("checkRevocations", 2) == 1, Getter: w.getter, Now: symTimeSet("t")})
 	vp.Reach("reject", err != nil)
 }
+
+// H10k: SupportedTcbLevelsFromCollateral - the API that reports the matching TCB levels from the
+// collateral an options value holds after an accepted verification - on a structurally arbitrary
+// message (absent TD body, TEE_TCB_SVN of any length, absent QE report).
+func H10k_SupportedTcbLevels_AnyMessage() {
+	w := mkCollateralWorld(0, 1, 0, 1, 0, 0)
+	good := mkQuote(w.pki, 0)
+	opts := &Options{GetCollateral: true, Getter: w.getter, Now: symTimeSet("t")}
+	if TdxQuote(good, opts) != nil {
+		return
+	}
+	vp.Reach("options-hold-verified-collateral", true)
+	msg := q.Arbitrary("m_", vp.Choose("nilWhich", 9), 4, 100)
+	_, _, e1 := SupportedTcbLevelsFromCollateral(msg, opts)
+	vp.Reach("levels-reported", e1 == nil)
+	vp.Reach("levels-not-reported", e1 != nil)
+}
+
+// H10l: the same API on options without collateral and on nil arguments.
+func H10l_SupportedTcbLevels_NilArguments() {
+	msg := q.Arbitrary("m_", vp.Choose("nilWhich", 9), 4, 100)
+	_, _, e2 := SupportedTcbLevelsFromCollateral(msg, &Options{})
+	_, _, e4 := SupportedTcbLevelsFromCollateral(nil, &Options{})
+	_, _, e5 := SupportedTcbLevelsFromCollateral(msg, nil)
+	var nq *pb.QuoteV4
+	_, _, e6 := SupportedTcbLevelsFromCollateral(nq, &Options{})
+	vp.Assert("no-collateral-or-no-message-is-an-error", vp.And(e2 != nil, e4 != nil, e5 != nil, e6 != nil))
+}
